@@ -126,7 +126,20 @@ Definition parse_style (v : bytes) : list decl :=
                      | _ => let p := take_while (fun c => negb (beq c b_colon)) d in
                             [(to_lower (trim p), norm_text (skipn (S (length p)) d))]
                      end) (split_on b_semi [] v).
-Definition norm_style (v : bytes) : list decl := stable_sort decl fst (parse_style v).
+(* The relative order of two declarations matters when one is a shorthand of the other
+   (padding / padding-top, border / border-left-color, ...): the later one wins in a browser.
+   The sorted declaration list forgets order, so each such ordered pair is recorded as a
+   pseudo-declaration ("<", earlier ++ "<" ++ later); unrelated declarations may be permuted freely. *)
+Definition b_dash := x2d.
+Definition overlaps (p q : bytes) : bool :=
+  negb (bytes_eqb p q) && (prefix (p ++ [b_dash]) q || prefix (q ++ [b_dash]) p).
+Fixpoint order_marks (l : list decl) : list decl :=
+  match l with
+  | [] => []
+  | d :: r => map (fun e => ([b_lt], fst d ++ [b_lt] ++ fst e)) (filter (fun e => overlaps (fst d) (fst e)) r) ++ order_marks r
+  end.
+Definition norm_style (v : bytes) : list decl :=
+  let ds := parse_style v in stable_sort decl fst ds ++ stable_sort decl snd (order_marks ds).
 
 Inductive nattr := NAttr (name : bytes) (value : bytes) | NStyle (decls : list decl).
 Definition nattr_key (a : nattr) : bytes := match a with NAttr n _ => n | NStyle _ => lit "style" end.
